@@ -388,7 +388,7 @@ def load_module_class(prog: Dict[str, Any]):
         return _LOADED[h], src
     d = os.environ.get("VMON_SCRATCH") or os.path.join(os.environ.get("VERIF_HOME", "."), ".scratch", "progs")
     os.makedirs(d, exist_ok=True)
-    path = os.path.join(d, f"prog_{h}.py")
+    path = os.path.join(d, f"prog_{h}_{os.getpid()}.py")  # per-process file: workers may emit the same program concurrently
     with open(path, "w") as f:
         f.write(src)
     spec = importlib.util.spec_from_file_location(f"vmon_prog_{h}", path)
